@@ -116,7 +116,7 @@ def create_nxgraph(net, include_pipes=True, respect_status_pipes=True,
     branch_params.update({"%s_%s" % (par, bc): loc.get("%s_%s" % (par, bc)) for par in branch_kw
                           for bc in ["pipes", "valves", "pumps", "press_controls",
                                      "mass_circ_pumps", "pressure_circ_pumps", "valve_pipes",
-                                     "flow_controls", "heat_consumers"]})
+                                     "flow_controls", "heat_consumers", "compressors"]})
     switch_components = {"pipes": "pi"}
 
     for comp in net.component_list:
@@ -170,6 +170,11 @@ def add_branch_component(comp, mg, net, table_name, include_comp, respect_status
         indices, parameter, in_service = init_par(tab, respect_status, in_service_name)
         indices[:, F_JUNCTION] = tab[from_col].values
         indices[:, T_JUNCTION] = tab[to_col].values
+
+        if table_name == "valve" and "et" in tab:
+            # a valve attached to a pipe ("pi") does not connect two junctions: it adds no edge of its own
+            # (its "element" entry is a pipe index), it only removes the edge of its pipe when it is closed
+            in_service = in_service & (tab["et"].values == "ju")
 
         if valve_et_filter is not None:
             mask = (net.valve.et.values == valve_et_filter) & ~net.valve.opened.values.astype(bool)
